@@ -36,6 +36,10 @@ type condFact struct {
 // local by its defining expression (canRetry := idempotent && retried < retry; if canRetry {..}).
 var factExpand func(e ast.Expr) ast.Expr
 
+// factCallExpand, set once per run, expands a fact `helper(args) == val` into the facts of the one
+// path of the helper that can yield val (util_inline.go).
+var factCallExpand func(call *ast.CallExpr, val bool) []condFact
+
 func collectFacts(parents map[ast.Node]ast.Node, at ast.Node) []condFact {
 	var out []condFact
 	var add func(e ast.Expr, neg bool)
@@ -53,6 +57,18 @@ func collectFacts(parents map[ast.Node]ast.Node, at ast.Node) []condFact {
 		if u, ok := e.(*ast.UnaryExpr); ok && u.Op == token.NOT {
 			add(u.X, !neg)
 			return
+		}
+		// a boolean helper of the repository stands for the conditions of the path that yields the value
+		if call, ok := e.(*ast.CallExpr); ok && factCallExpand != nil && depth < 4 {
+			if fs := factCallExpand(call, !neg); len(fs) > 0 {
+				out = append(out, condFact{e, neg}) // keep the call itself as a fact too
+				depth++
+				for _, f := range fs {
+					add(f.e, f.neg)
+				}
+				depth--
+				return
+			}
 		}
 		if b, ok := e.(*ast.BinaryExpr); ok {
 			if (b.Op == token.LAND && !neg) || (b.Op == token.LOR && neg) {
@@ -170,6 +186,43 @@ func strictLess(info *types.Info, f condFact, a, b types.Object) bool {
 	return false
 }
 
+// strictLessP: like strictLess, with the two sides given as predicates on expressions.
+func strictLessP(info *types.Info, f condFact, isA, isB func(ast.Expr) bool) bool {
+	be, ok := f.e.(*ast.BinaryExpr)
+	if !ok {
+		return false
+	}
+	op := be.Op
+	if f.neg {
+		switch op {
+		case token.GEQ:
+			op = token.LSS
+		case token.LEQ:
+			op = token.GTR
+		case token.LSS:
+			op = token.GEQ
+		case token.GTR:
+			op = token.LEQ
+		default:
+			return false
+		}
+	}
+	switch {
+	case op == token.LSS && isA(be.X) && isB(be.Y):
+		return true
+	case op == token.GTR && isB(be.X) && isA(be.Y):
+		return true
+	}
+	if op == token.LEQ && isB(be.Y) {
+		if s, ok := ast.Unparen(be.X).(*ast.BinaryExpr); ok && s.Op == token.ADD && isA(s.X) {
+			if c, ok := intConst(info, s.Y); ok && c == 1 {
+				return true
+			}
+		}
+	}
+	return false
+}
+
 // definedByCall: local object defined as X.<method>("key" ...)
 func definedByCall(info *types.Info, body ast.Node, method, key string) types.Object {
 	var res types.Object
@@ -202,16 +255,50 @@ func ruleG1(r *Run) {
 	parents := parentMap(fd)
 	factExpand = boolLocalExpander(info, fd.Body)
 	defer func() { factExpand = nil }()
-	idem := definedByCall(info, fd.Body, "GetBool", "idempotent")
-	retry := definedByCall(info, fd.Body, "GetInt", "retry")
-	retried := definedByCall(info, fd.Body, "GetInt", "retried")
-	if idem == nil || retry == nil || retried == nil {
+	// roles, not variables: "the idempotent flag" is a call X.GetBool("idempotent", ..) or a local
+	// defined by one, in the handler or in a boolean helper the gate was moved into
+	isItemCall := func(e ast.Expr, method, key string) bool {
+		call, ok := ast.Unparen(e).(*ast.CallExpr)
+		if !ok || methodName(call) != method || len(call.Args) < 1 {
+			return false
+		}
+		lit, ok := ast.Unparen(call.Args[0]).(*ast.BasicLit)
+		return ok && lit.Value == `"`+key+`"`
+	}
+	hdefs := localDefs(info, fd.Body)
+	role := func(method, key string) func(ast.Expr) bool {
+		return func(e ast.Expr) bool {
+			e = ast.Unparen(e)
+			if isItemCall(e, method, key) {
+				return true
+			}
+			if o := identObj(info, e); o != nil {
+				if d := hdefs[o]; d != nil && isItemCall(d, method, key) {
+					return true
+				}
+			}
+			return false
+		}
+	}
+	isIdem, isRetry, isRetried := role("GetBool", "idempotent"), role("GetInt", "retry"), role("GetInt", "retried")
+	seenRole := map[string]bool{}
+	p.deepInspect(info, fd.Body, 2, func(_ *types.Info, n ast.Node) bool {
+		if e, ok := n.(ast.Expr); ok {
+			for k, m := range map[string]string{"idempotent": "GetBool", "retry": "GetInt", "retried": "GetInt"} {
+				if isItemCall(e, m, k) {
+					seenRole[k] = true
+				}
+			}
+		}
+		return true
+	})
+	if !seenRole["idempotent"] || !seenRole["retry"] || !seenRole["retried"] {
 		r.Undec("retry gate variables", fd.Pos(), "idempotent/retry/retried are not read from the call context with GetBool/GetInt")
 		return
 	}
 	// per-call override must default to the configured value
 	okDefaults := true
-	ast.Inspect(fd.Body, func(n ast.Node) bool {
+	p.deepInspect(info, fd.Body, 2, func(info *types.Info, n ast.Node) bool {
 		call, ok := n.(*ast.CallExpr)
 		if !ok || len(call.Args) != 2 {
 			return true
@@ -270,15 +357,15 @@ func ruleG1(r *Run) {
 				s = "!(" + s + ")"
 			}
 			rendered = append(rendered, s)
-			if !f.neg && identObj(info, f.e) == idem {
+			if !f.neg && isIdem(f.e) {
 				hasIdem = true
 			}
-			if be, ok := f.e.(*ast.BinaryExpr); ok && !f.neg && be.Op == token.EQL && identObj(info, be.X) == idem {
+			if be, ok := f.e.(*ast.BinaryExpr); ok && !f.neg && be.Op == token.EQL && isIdem(be.X) {
 				if id, ok := ast.Unparen(be.Y).(*ast.Ident); ok && id.Name == "true" {
 					hasIdem = true
 				}
 			}
-			if strictLess(info, f, retried, retry) {
+			if strictLessP(info, f, isRetried, isRetry) {
 				hasBudget = true
 			}
 		}
@@ -369,7 +456,7 @@ func ruleG2(r *Run) {
 			if excludesRejection {
 				return true
 			}
-			ast.Inspect(d, func(m ast.Node) bool {
+			p.deepInspect(info, d, 2, func(_ *types.Info, m ast.Node) bool {
 				if c, ok := m.(*ast.CallExpr); ok {
 					s := types.ExprString(c.Fun)
 					if (strings.HasPrefix(s, "atomic.Add") || strings.HasPrefix(s, "atomic.Store")) && len(c.Args) > 0 {
@@ -501,7 +588,8 @@ func ruleG2(r *Run) {
 		if !ok {
 			return true
 		}
-		ast.Inspect(d, func(m ast.Node) bool {
+		// in the deferred function and in the repository helpers it calls (cb.fail())
+		p.deepInspect(info, d, 2, func(info *types.Info, m ast.Node) bool {
 			call, ok := m.(*ast.CallExpr)
 			if !ok {
 				return true
@@ -813,26 +901,92 @@ func ruleG8(r *Run) {
 		r.Undec("Process error path", 0, "Service.Process not found")
 		return
 	}
-	// pattern: results, e := <invoke chain>; if e != nil { err = e; return } ... if err != nil { return nil, err }
-	assignsErr, returnsErr := false, false
-	ast.Inspect(pfd.Body, func(n ast.Node) bool {
-		switch x := n.(type) {
-		case *ast.AssignStmt:
-			if len(x.Lhs) == 1 && len(x.Rhs) == 1 {
-				if lo, ro := identObj(info, x.Lhs[0]), identObj(info, x.Rhs[0]); lo != nil && ro != nil && lo.Name() == "err" && ro.Name() == "e" {
-					assignsErr = true
+	// the error result of the invoke chain call reaches Process's own error result, whatever the
+	// variables are called and whether or not the guarded call was split off into a helper:
+	//   results, e := <chain>(ctx, name, args); ... err = e ... return nil, err
+	errFlows := func(ci *types.Info, f *ast.FuncDecl, isSource func(call *ast.CallExpr) bool) bool {
+		taint := map[types.Object]bool{}
+		for pass := 0; pass < 4; pass++ {
+			ast.Inspect(f.Body, func(n ast.Node) bool {
+				as, ok := n.(*ast.AssignStmt)
+				if !ok {
+					return true
 				}
-			}
-		case *ast.ReturnStmt:
-			if len(x.Results) == 2 {
-				if o := identObj(info, x.Results[1]); o != nil && o.Name() == "err" {
-					returnsErr = true
+				if len(as.Rhs) == 1 && len(as.Lhs) >= 1 {
+					if c, ok := ast.Unparen(as.Rhs[0]).(*ast.CallExpr); ok && isSource(c) {
+						if o := identObj(ci, as.Lhs[len(as.Lhs)-1]); o != nil {
+							taint[o] = true
+						}
+						return true
+					}
+				}
+				if len(as.Lhs) == len(as.Rhs) {
+					for k, l := range as.Lhs {
+						if ro := identObj(ci, as.Rhs[k]); ro != nil && taint[ro] {
+							if lo := identObj(ci, l); lo != nil {
+								taint[lo] = true
+							}
+						}
+					}
+				}
+				return true
+			})
+		}
+		// named error result tainted, or a tainted variable returned in the last position
+		if f.Type.Results != nil {
+			for _, fl := range f.Type.Results.List {
+				for _, nm := range fl.Names {
+					if taint[ci.Defs[nm]] {
+						return true
+					}
 				}
 			}
 		}
-		return true
-	})
-	r.Check(assignsErr && returnsErr, "error of the invoke chain is returned by Process", pfd.Pos(), "err = e ... return nil, err", "an error returned by the invoke chain is no longer propagated out of Service.Process: the caller receives a successful (nil) result for a failed call")
+		found := false
+		ast.Inspect(f.Body, func(n ast.Node) bool {
+			if ret, ok := n.(*ast.ReturnStmt); ok && len(ret.Results) >= 1 {
+				if o := identObj(ci, ret.Results[len(ret.Results)-1]); o != nil && taint[o] {
+					found = true
+				}
+			}
+			return true
+		})
+		return found
+	}
+	isChain := func(ci *types.Info) func(call *ast.CallExpr) bool {
+		return func(call *ast.CallExpr) bool {
+			ta, ok := ast.Unparen(call.Fun).(*ast.TypeAssertExpr)
+			if !ok {
+				return false
+			}
+			t := ci.TypeOf(ta.Type)
+			return t != nil && strings.Contains(typeKey(t), "NextInvokeHandler") || (t != nil && strings.Contains(types.ExprString(ta.Type), "NextInvokeHandler"))
+		}
+	}
+	okFlow := false
+	if errFlows(info, pfd, isChain(info)) {
+		okFlow = true
+	} else {
+		// the chain call lives in a helper: the helper must hand the error out, and Process must return it
+		ast.Inspect(pfd.Body, func(n ast.Node) bool {
+			call, ok := n.(*ast.CallExpr)
+			if !ok {
+				return true
+			}
+			d, cpkg := p.calleeDecl(info, call)
+			if d == nil {
+				return true
+			}
+			if errFlows(cpkg.TypesInfo, d, isChain(cpkg.TypesInfo)) {
+				helper := Callee(info, call)
+				if errFlows(info, pfd, func(c *ast.CallExpr) bool { return Callee(info, c) == helper }) {
+					okFlow = true
+				}
+			}
+			return true
+		})
+	}
+	r.Check(okFlow, "error of the invoke chain is returned by Process", pfd.Pos(), "the chain's error result flows to the returned error", "an error returned by the invoke chain is no longer propagated out of Service.Process: the caller receives a successful (nil) result for a failed call")
 	// Handle encodes the error into the response when the chain produced none
 	hfd, _ := p.DeclOf("rpc/core", "Service.Handle")
 	encErr := false
@@ -912,21 +1066,81 @@ func ruleG9(r *Run) {
 		return true
 	})
 	r.Check(closes >= 3 && closes == closesUnderOnce, "Forking closes done once, on every terminal branch", ffd.Pos(), fmt.Sprintf("%d close(done), all under once.Do", closes), fmt.Sprintf("Forking has %d close(done) of which %d under sync.Once (expected the success branch, the all-failed branch and the panic branch, each under once.Do): a double close panics or the caller waits for ever", closes, closesUnderOnce))
-	// success takes the first response; failure only when the atomic counter reaches zero
-	atomicDec := 0
-	ast.Inspect(ffd.Body, func(n ast.Node) bool {
-		if c, ok := n.(*ast.CallExpr); ok {
-			if f := Callee(info, c); f != nil && FullName(f) == "sync/atomic.AddInt64" {
-				if be, ok := parents[c].(*ast.BinaryExpr); ok && be.Op == token.LEQ {
-					if z, ok := intConst(info, be.Y); ok && z == 0 {
-						atomicDec++
+	// success takes the first response; a failure ends the call only when the atomic counter of
+	// outstanding servers reaches zero: every once.Do that reports an error is control-dependent on
+	// `atomic.AddInt64(&count, -1) <= 0`, written in place or behind a local closure / helper
+	fdefs := localDefs(info, ffd.Body)
+	isLastFailure := func(e ast.Expr) bool {
+		var check func(e ast.Expr, depth int) bool
+		check = func(e ast.Expr, depth int) bool {
+			e = ast.Unparen(e)
+			if be, ok := e.(*ast.BinaryExpr); ok && be.Op == token.LEQ {
+				if z, ok := intConst(info, be.Y); ok && z == 0 {
+					if c, ok := ast.Unparen(be.X).(*ast.CallExpr); ok {
+						if f := Callee(info, c); f != nil && FullName(f) == "sync/atomic.AddInt64" && len(c.Args) == 2 {
+							if d, ok := intConst(info, c.Args[1]); ok && d == -1 {
+								return true
+							}
+						}
 					}
 				}
+			}
+			if c, ok := e.(*ast.CallExpr); ok && depth < 2 {
+				// a local closure: lastFailure := func() bool { return atomic.AddInt64(&count, -1) <= 0 }
+				if o := identObj(info, c.Fun); o != nil {
+					if fl, ok := ast.Unparen(fdefs[o]).(*ast.FuncLit); ok && len(fl.Body.List) == 1 {
+						if ret, ok := fl.Body.List[0].(*ast.ReturnStmt); ok && len(ret.Results) == 1 {
+							return check(ret.Results[0], depth+1)
+						}
+					}
+				}
+				if d, cpkg := p.calleeDecl(info, c); d != nil && cpkg == fpkg && len(d.Body.List) == 1 {
+					if ret, ok := d.Body.List[0].(*ast.ReturnStmt); ok && len(ret.Results) == 1 {
+						return check(ret.Results[0], depth+1)
+					}
+				}
+			}
+			return false
+		}
+		return check(e, 0)
+	}
+	errDo, errDoGated := 0, 0
+	ast.Inspect(ffd.Body, func(n ast.Node) bool {
+		pc, ok := n.(*ast.CallExpr)
+		if !ok || methodName(pc) != "Do" || len(pc.Args) != 1 {
+			return true
+		}
+		if t := info.TypeOf(pc.Fun.(*ast.SelectorExpr).X); t == nil || !isSyncType(t, "Once") {
+			return true
+		}
+		fl, ok := ast.Unparen(pc.Args[0]).(*ast.FuncLit)
+		if !ok {
+			return true
+		}
+		setsErr := false
+		ast.Inspect(fl.Body, func(m ast.Node) bool {
+			if as, ok := m.(*ast.AssignStmt); ok {
+				for _, l := range as.Lhs {
+					if t := info.TypeOf(l); t != nil && types.Identical(t, types.Universe.Lookup("error").Type()) {
+						setsErr = true
+					}
+				}
+			}
+			return true
+		})
+		if !setsErr {
+			return true
+		}
+		errDo++
+		for _, fc := range collectFacts(parents, pc) {
+			if !fc.neg && isLastFailure(fc.e) {
+				errDoGated++
+				break
 			}
 		}
 		return true
 	})
-	r.Check(atomicDec == 2, "Forking fails only when every server failed", ffd.Pos(), "atomic.AddInt64(&count,-1) <= 0 on both failure branches", "the all-failed condition is no longer `atomic.AddInt64(&count, -1) <= 0` on the error and the panic branch: Forking fails while a server could still succeed, or never returns")
+	r.Check(errDo == 2 && errDoGated == errDo, "Forking fails only when every server failed", ffd.Pos(), "atomic.AddInt64(&count,-1) <= 0 on both failure branches", "the all-failed condition is no longer `atomic.AddInt64(&count, -1) <= 0` on the error and the panic branch: Forking fails while a server could still succeed, or never returns")
 }
 
 // ---------------------------------------------------------------------------------------
@@ -1039,10 +1253,35 @@ func ruleG11(r *Run) {
 	}
 	info := pkg.TypesInfo
 	parents := parentMap(fd)
-	// clamp: if permits > l.maxPermits { permits = l.maxPermits }
+	// clamp: if permits > l.maxPermits { permits = l.maxPermits } - in Acquire, or in the helper of the
+	// same package that the reservation loop was moved into
 	clampOK, clampSeen := false, false
 	var cpos token.Pos
-	ast.Inspect(fd.Body, func(n ast.Node) bool {
+	clampFn := fd
+	hasClampAssign := func(f *ast.FuncDecl) bool {
+		found := false
+		ast.Inspect(f.Body, func(n ast.Node) bool {
+			if as, ok := n.(*ast.AssignStmt); ok && len(as.Lhs) == 1 && len(as.Rhs) == 1 {
+				if fv := fieldOf(info, as.Rhs[0]); fv != nil && fv.Name() == "maxPermits" {
+					found = true
+				}
+			}
+			return true
+		})
+		return found
+	}
+	if !hasClampAssign(fd) {
+		ast.Inspect(fd.Body, func(n ast.Node) bool {
+			if call, ok := n.(*ast.CallExpr); ok {
+				if d, cpkg := p.calleeDecl(info, call); d != nil && cpkg == pkg && hasClampAssign(d) {
+					clampFn = d
+				}
+			}
+			return true
+		})
+	}
+	cparents := parentMap(clampFn)
+	ast.Inspect(clampFn.Body, func(n ast.Node) bool {
 		as, ok := n.(*ast.AssignStmt)
 		if !ok || len(as.Lhs) != 1 || len(as.Rhs) != 1 {
 			return true
@@ -1054,7 +1293,7 @@ func ruleG11(r *Run) {
 		clampSeen = true
 		cpos = as.Pos()
 		pobj := identObj(info, as.Lhs[0])
-		facts := collectFacts(parents, as)
+		facts := collectFacts(cparents, as)
 		// exactly one fact, inside the retry loop's body: permits > maxPermits
 		rel := 0
 		exact := false
@@ -1149,78 +1388,120 @@ func init() {
 func ruleG12(r *Run) {
 	p := r.P
 	for _, tr := range []string{"rpc/socket", "rpc/udp", "rpc/websocket"} {
-		fd, pkg := p.DeclOf(tr, "Handler.receive")
-		if fd == nil {
-			r.Undec("per-request context "+tr, 0, "Handler.receive not found")
+		fds, pkg := p.dispatchers(tr)
+		if len(fds) == 0 {
+			r.Undec("per-request context "+tr, 0, "no function dispatches requests (calls Handler.run / Handler.task)")
 			continue
 		}
 		info := pkg.TypesInfo
-		parents := parentMap(fd)
 		n := 0
-		ast.Inspect(fd.Body, func(m ast.Node) bool {
-			call, ok := m.(*ast.CallExpr)
-			if !ok {
-				return true
-			}
-			f := Callee(info, call)
-			if f == nil || !p.InRepo(f) {
-				return true
-			}
-			name := p.FuncName(f)
-			if !strings.HasSuffix(name, ".Handler.run") && !strings.HasSuffix(name, ".Handler.task") {
-				return true
-			}
-			n++
-			key := fmt.Sprintf("per-request context %s.Handler.receive -> %s #%d", tr, f.Name(), n)
-			if len(call.Args) == 0 {
-				r.Undec(key, call.Pos(), "dispatch without arguments")
-				return true
-			}
-			// innermost enclosing loop
-			var loop ast.Node
-			for y := parents[call]; y != nil; y = parents[y] {
-				if _, ok := y.(*ast.ForStmt); ok {
-					loop = y
-					break
-				}
-			}
-			builds := func(e ast.Node) bool {
-				found := false
-				ast.Inspect(e, func(k ast.Node) bool {
-					if c, ok := k.(*ast.CallExpr); ok {
-						if g := Callee(info, c); g != nil && (g.Name() == "getServiceContext" || g.Name() == "NewServiceContext") {
-							found = true
-						}
-					}
+		for _, fd := range fds {
+			parents := parentMap(fd)
+			ast.Inspect(fd.Body, func(m ast.Node) bool {
+				call, ok := m.(*ast.CallExpr)
+				if !ok {
 					return true
-				})
-				return found
-			}
-			arg := call.Args[0]
-			okCtx := builds(arg)
-			if !okCtx {
-				if o := identObj(info, arg); o != nil && loop != nil && o.Pos() > loop.Pos() && o.Pos() < loop.End() {
-					// a local defined inside the loop: its definition must build the context
-					ast.Inspect(loop, func(k ast.Node) bool {
-						if as, ok := k.(*ast.AssignStmt); ok {
-							for i, l := range as.Lhs {
-								if identObj(info, l) == o && i < len(as.Rhs) && builds(as.Rhs[i]) {
-									okCtx = true
-								}
+				}
+				f := Callee(info, call)
+				if f == nil || !p.InRepo(f) {
+					return true
+				}
+				name := p.FuncName(f)
+				if !strings.HasSuffix(name, ".Handler.run") && !strings.HasSuffix(name, ".Handler.task") {
+					return true
+				}
+				n++
+				key := fmt.Sprintf("per-request context %s.Handler.receive -> %s #%d", tr, f.Name(), n)
+				if fd.Name.Name != "receive" {
+					key = fmt.Sprintf("per-request context %s -> %s #%d", p.DeclName(fd), f.Name(), n)
+				}
+				if len(call.Args) == 0 {
+					r.Undec(key, call.Pos(), "dispatch without arguments")
+					return true
+				}
+				// innermost enclosing loop
+				var loop ast.Node
+				for y := parents[call]; y != nil; y = parents[y] {
+					if _, ok := y.(*ast.ForStmt); ok {
+						loop = y
+						break
+					}
+				}
+				builds := func(e ast.Node) bool {
+					found := false
+					ast.Inspect(e, func(k ast.Node) bool {
+						if c, ok := k.(*ast.CallExpr); ok {
+							if g := Callee(info, c); g != nil && (g.Name() == "getServiceContext" || g.Name() == "NewServiceContext") {
+								found = true
 							}
 						}
 						return true
 					})
+					return found
 				}
-			}
-			if okCtx {
-				r.Ok(key, call.Pos(), "context built in the dispatching iteration")
-			} else {
-				r.Viol(key, call.Pos(), "the context handed to the dispatch is not built inside the iteration that dispatches: one mutable ServiceContext (method, headers, items) is shared by all requests of the connection, so a concurrent request's arguments reach the wrong function")
-			}
-			return true
-		})
+				arg := call.Args[0]
+				okCtx := builds(arg)
+				if !okCtx {
+					if loop == nil && fd.Name.Name != "receive" {
+						loop = fd.Body // a per-frame helper: its body is the iteration
+					}
+					if o := identObj(info, arg); o != nil && loop != nil && o.Pos() > loop.Pos() && o.Pos() < loop.End() {
+						// a local defined inside the loop: its definition must build the context
+						ast.Inspect(loop, func(k ast.Node) bool {
+							if as, ok := k.(*ast.AssignStmt); ok {
+								for i, l := range as.Lhs {
+									if identObj(info, l) == o && i < len(as.Rhs) && builds(as.Rhs[i]) {
+										okCtx = true
+									}
+								}
+							}
+							return true
+						})
+					}
+				}
+				if okCtx {
+					r.Ok(key, call.Pos(), "context built in the dispatching iteration")
+				} else {
+					r.Viol(key, call.Pos(), "the context handed to the dispatch is not built inside the iteration that dispatches: one mutable ServiceContext (method, headers, items) is shared by all requests of the connection, so a concurrent request's arguments reach the wrong function")
+				}
+				return true
+			})
+		}
 	}
+}
+
+// dispatchers: the functions of a transport package that hand a request to Handler.run /
+// Handler.task (the receive loop, or the per-frame helper split off from it).
+func (p *Prog) dispatchers(tr string) ([]*ast.FuncDecl, *packages.Package) {
+	pkg := p.Pkg(tr)
+	if pkg == nil {
+		return nil, nil
+	}
+	var out []*ast.FuncDecl
+	for _, file := range pkg.Syntax {
+		for _, d := range file.Decls {
+			fd, ok := d.(*ast.FuncDecl)
+			if !ok || fd.Body == nil || fd.Name.Name == "run" || fd.Name.Name == "task" {
+				continue
+			}
+			has := false
+			ast.Inspect(fd.Body, func(n ast.Node) bool {
+				if call, ok := n.(*ast.CallExpr); ok {
+					if f := Callee(pkg.TypesInfo, call); f != nil && p.InRepo(f) {
+						name := p.FuncName(f)
+						if strings.HasSuffix(name, ".Handler.run") || strings.HasSuffix(name, ".Handler.task") {
+							has = true
+						}
+					}
+				}
+				return true
+			})
+			if has {
+				out = append(out, fd)
+			}
+		}
+	}
+	return out, pkg
 }
 
 // ---------------------------------------------------------------------------------------
@@ -1266,7 +1547,8 @@ func ruleG7(r *Run) {
 			r.Undec("conn.Transport "+tr, 0, "not found")
 		}
 		// (2) Handler.receive: the index from parseHeader is the one dispatched
-		if fd, _ := p.DeclOf(tr, "Handler.receive"); fd != nil {
+		fdsD, _ := p.dispatchers(tr)
+		for _, fd := range fdsD {
 			var parsed types.Object
 			ast.Inspect(fd.Body, func(n ast.Node) bool {
 				if as, ok := n.(*ast.AssignStmt); ok && len(as.Rhs) == 1 {
@@ -1307,7 +1589,11 @@ func ruleG7(r *Run) {
 				}
 				return true
 			})
-			r.Check(okAll && n >= 3, "frame's own id dispatched in "+tr+".Handler.receive", fd.Pos(), fmt.Sprintf("%d dispatches use the parsed index", n), "the index passed to run/task/sendResponse is not the one parsed from the frame being processed: the response carries another request's id")
+			k7 := "frame's own id dispatched in " + tr + ".Handler.receive"
+			if fd.Name.Name != "receive" {
+				k7 = "frame's own id dispatched in " + p.DeclName(fd)
+			}
+			r.Check(okAll && n >= 3, k7, fd.Pos(), fmt.Sprintf("%d dispatches use the parsed index", n), "the index passed to run/task/sendResponse is not the one parsed from the frame being processed: the response carries another request's id")
 		}
 		// (3) Handler.run passes its index on; Handler.send writes response.Index into the header
 		if fd, _ := p.DeclOf(tr, "Handler.run"); fd != nil {
@@ -1332,38 +1618,56 @@ func ruleG7(r *Run) {
 			r.Check(ok, "run answers with the id it was given in "+tr+".Handler.run", fd.Pos(), "sendResponse(.., index, ..)", "Handler.run does not pass its own index to sendResponse")
 		}
 		if fd, _ := p.DeclOf(tr, "Handler.send"); fd != nil {
-			defs := localDefs(info, fd.Body)
-			ok := false
-			ast.Inspect(fd.Body, func(m ast.Node) bool {
-				call, isC := m.(*ast.CallExpr)
-				if !isC {
-					return true
-				}
-				if f := Callee(info, call); f != nil && f.Name() == "makeHeader" {
-					for _, a := range call.Args {
-						// index variable derived from response.Index (possibly |= error flag)
-						if o := identObj(info, a); o != nil && o.Name() == "index" {
-							ok = true
-							_ = defs
-						}
-					}
-				}
-				return true
-			})
-			fromResp := false
+			// the local that holds response.Index (whatever it is called) ...
+			var idx types.Object
 			ast.Inspect(fd.Body, func(m ast.Node) bool {
 				if as, isA := m.(*ast.AssignStmt); isA {
 					for i, l := range as.Lhs {
-						if o := identObj(info, l); o != nil && o.Name() == "index" && i < len(as.Rhs) {
+						if i < len(as.Rhs) {
 							if fv := fieldOf(info, as.Rhs[i]); fv != nil && fv.Name() == "Index" {
-								fromResp = true
+								if o := identObj(info, l); o != nil {
+									idx = o
+								}
 							}
 						}
 					}
 				}
 				return true
 			})
-			r.Check(ok && fromResp, "response header carries the response's id in "+tr+".Handler.send", fd.Pos(), "index := response.Index ... makeHeader(.., index)", "Handler.send does not write response.Index into the frame header")
+			// ... reaches makeHeader, directly or through a helper that passes its parameter on
+			var reaches func(info2 *types.Info, body ast.Node, o types.Object, depth int) bool
+			reaches = func(info2 *types.Info, body ast.Node, o types.Object, depth int) bool {
+				found := false
+				ast.Inspect(body, func(m ast.Node) bool {
+					call, isC := m.(*ast.CallExpr)
+					if !isC || found {
+						return true
+					}
+					f := Callee(info2, call)
+					if f == nil {
+						return true
+					}
+					for ai, a := range call.Args {
+						if identObj(info2, a) != o {
+							continue
+						}
+						if f.Name() == "makeHeader" {
+							found = true
+							return true
+						}
+						if d, cpkg := p.calleeDecl(info2, call); d != nil && depth < 2 {
+							params := paramsOf(cpkg.TypesInfo, d.Type)
+							if ai < len(params) && params[ai] != nil && reaches(cpkg.TypesInfo, d.Body, params[ai], depth+1) {
+								found = true
+							}
+						}
+					}
+					return true
+				})
+				return found
+			}
+			ok := idx != nil && reaches(info, fd.Body, idx, 0)
+			r.Check(ok, "response header carries the response's id in "+tr+".Handler.send", fd.Pos(), "index := response.Index ... makeHeader(.., index)", "Handler.send does not write response.Index into the frame header")
 		}
 		// (4) client: the index parsed from the response frame is the one looked up
 		if fd, _ := p.DeclOf(tr, "conn.receive"); fd != nil {
